@@ -20,6 +20,18 @@ func VerifC15Counts() {
 		rs.Results[c15Names[i]] = &lint.LintResult{Status: lint.LintStatus(s)}
 	}
 	long := zz.Bool()
+	// history: the tool prints one table per input file (and per summary flag), so an arbitrary earlier
+	// table - other results, other flag - may have been built in the same process
+	if zz.Param("c15.hist", 0) > 0 {
+		zz.Cover("after an earlier table")
+		prev := &zlint.ResultSet{Results: map[string]*lint.LintResult{}}
+		for i := 0; i < zz.Param("c15.hist", 0); i++ {
+			s := zz.Int()
+			zz.Assume(s >= 1 && s <= 7)
+			prev.Results[c15Names[i]] = &lint.LintResult{Status: lint.LintStatus(s)}
+		}
+		(&resultsTable{}).newRT(lint.Pass, prev, zz.Bool())
+	}
 	rt := (&resultsTable{}).newRT(lint.Pass, rs, long)
 	for _, level := range []lint.LintStatus{lint.Notice, lint.Warn, lint.Error, lint.Fatal} {
 		n := 0
